@@ -37,3 +37,11 @@ def prepare(ctx):
         print(p.stdout[-3000:])
         ctx["fail"]("the CPython driver failed (not a verdict)")
     ctx["env"]["OHMC_C12_OBS"] = out
+
+
+def replay(ctx, path):
+    """A C12 observation comes from CPython: a recorded violation is replayed by re-running the
+    whole (quick) differential, which re-observes the same constructor call."""
+    import subprocess, sys
+    print("C12 replay of %s: re-running the differential" % path)
+    return subprocess.run([os.path.join(ctx["verif"], "check"), "C12", "--tier", "quick"]).returncode
